@@ -111,9 +111,11 @@ class Node(ElementBase):
         elif n_up == 1:
             link_up = next(iter(links_up))[-1]
             v = link_up.states["v"][-1]
-            q = link_up.get_flow(engine)[-1]
-            if q_o is not None:
-                q += q_o  # type: ignore[assignment,operator]
+            q_last = engine.vcat(link_up.get_flow(engine)[-1])
+            betas = engine.vcat(
+                *(dlink.turnrate for _, _, dlink in net.out_links(self))
+            )
+            q = engine.nodes.get_upstream_flow(q_last, link.turnrate, betas, q_o)
         else:
             v_last = []
             q_last = []
